@@ -117,10 +117,16 @@ def nameSafe (n : String) : Bool := (BasicType.ident n).asSafeString == n
 
 def keysOk (a : Ast) : Bool := a.types.all (fun kv => kv.1 == kv.2.rustName && nameSafe kv.1) && keysSorted a.types
 
+/-- no sign in front of a constant's value (the grammar cannot produce one; Rust's `parse::<u32>` would accept `+5`) -/
+def plusFree (t : String) : Bool :=
+  match t.toList with
+  | '+' :: _ => false
+  | _ => true
+
 /-- constant and enum-member names are identifiers proper: not numerals (a label `5` must mean five) and not TRUE/FALSE -/
 def constNamesOk (a : Ast) : Bool :=
   a.constants.all fun kv => (parseDecOrHex kv.1).isNone && kv.1 != "TRUE" && kv.1 != "FALSE" &&
-    (match kv.2 with | .constValue t => safeName t == t | _ => true)
+    (match kv.2 with | .constValue t => safeName t == t && plusFree t | _ => true)
 
 /-- every enum member is in the constant index under its own name, pointing at its enum (what `ConstantIndex::new` builds) -/
 def enumConstsOk (a : Ast) : Bool :=
